@@ -82,7 +82,16 @@ type ntlmContext struct {
 	h *NTLMAuth
 }
 
-func (c *ntlmContext) Authenticate(authorisationEncoded string, r *auth.NtlmResponse) (error) {
+func (c *ntlmContext) Authenticate(authorisationEncoded string, r *auth.NtlmResponse) (err error) {
+	// the NTLM library is not hardened against every malformed message (e.g. an authenticate
+	// message without session key field): a panic in there must not take the service down
+	defer func() {
+		if p := recover(); p != nil {
+			r.Authenticated = false
+			err = errors.New(fmt.Sprintf("Failed to process NTLM message: %v", p))
+		}
+	}()
+
         authorisation, err := base64.StdEncoding.DecodeString(authorisationEncoded)
         if err != nil {
 		return errors.New(fmt.Sprintf("Failed to decode NTLM Authorisation header: %s", err))
